@@ -64,6 +64,23 @@ def EP.setDisabled (e : EP) (d : Bool) : EP := { e with disabled := d }
 def EP.updateStatus (e : EP) (healthy : Bool) : EP :=
   { e with healthy := healthy, unhealthyCount := if healthy then 0 else e.unhealthyCount + 1 }
 
+/-- what an upstream answers to the probe `GET /healthz` (5 s timeout) of `controllers.GatewayHealthCheck` -/
+inductive ProbeAnswer
+  | status (code : Nat) (bodyIsOk : Bool)   -- an HTTP response
+  | timeout                                  -- no answer within the timeout
+  | transportError                           -- connection refused / reset / closed, TLS failure, redirect without target …
+deriving DecidableEq, Repr
+
+/-- client-go's rest client (`transformResponse`): a response is an error unless `200 ≤ code ≤ 206` -/
+def restClientError (code : Nat) : Bool := code < 200 || 206 < code
+
+/-- the decision of `controllers.GatewayHealthCheck`: it calls `UpdateStatus(true, …)` in exactly one place — no error from the
+    rest client and `statusCode == http.StatusOK`; the body is not looked at; everything else is `UpdateStatus(false, …)`. -/
+def gatewayHealthCheck : ProbeAnswer → Bool
+  | .status code _ => !restClientError code && code == 200
+  | .timeout => false
+  | .transportError => false
+
 /-- `EndpointInfo.TriggerHealthCheck`: non-blocking send on the 1-buffered channel -/
 def EP.trigger (e : EP) : EP := if e.chan then e else { e with chan := true }
 
